@@ -274,6 +274,11 @@ func (mn *memberNode) setHealth(hv map[string]string, applied []mMember) {
 
 // run executes one request and returns whether the real code accepted it.
 func (mn *memberNode) run(a *mAct, st *mState) (accepted bool, detail string) {
+	defer func() {
+		if r := recover(); r != nil { // a panic of the code under test is an answer, not a harness failure
+			accepted, detail = false, fmt.Sprintf("PANIC: %v", r)
+		}
+	}()
 	mn.seq++
 	switch a.Route {
 	case "propose":
@@ -525,6 +530,12 @@ func memberPart(t *testing.T, in *memberInput, res *verifkit.Result) {
 				rp.Real = fmt.Sprintf("accepted=%v %s", acc, detail)
 				cls := refusalClass(&a, st)
 				switch {
+				case strings.HasPrefix(detail, "PANIC"):
+					report(map[string]interface{}{"kind": "panic", "route": a.Route, "type": a.Type, "class": cls}, rp, "%s %s request %s: %s", a.Route, a.Type, actStr(&a), detail)
+					if mn, err = build(rc); err != nil { // the instance may be half-changed
+						return
+					}
+					continue
 				case strings.HasPrefix(detail, "MALFORMED"):
 					report(map[string]interface{}{"kind": "malformed-answer", "route": a.Route, "type": a.Type}, rp, "%s %s: %s", a.Route, a.Type, detail)
 				case acc && !a.Accept:
